@@ -35,13 +35,38 @@ char *sim_if_indextoname(unsigned int, char *);
 }
 
 // ---------------- allocator ledger ----------------
+#include <execinfo.h>
+extern "C" void __sanitizer_symbolize_pc(void *pc, const char *fmt, char *out, size_t out_size) __attribute__((weak));
+static int g_alloc_bt = -1;   // SIM_ALLOC_BT=1: remember where each live block was allocated (reporting aid, slow)
+static void blk_fill(AllocLedger::Blk &b, size_t n) {
+  b.size = n; b.index = g_alloc.calls; b.nbt = 0;
+  if (g_alloc_bt < 0) g_alloc_bt = getenv("SIM_ALLOC_BT") ? 1 : 0;
+  if (g_alloc_bt) b.nbt = backtrace(b.bt, 10);
+}
+static std::string blk_where(const AllocLedger::Blk &b) {
+  std::string out;
+  if (!__sanitizer_symbolize_pc) return out;
+  int shown = 0;
+  for (int i = 0; i < b.nbt && shown < 4; i++) {
+    char buf[512]; buf[0] = 0;
+    __sanitizer_symbolize_pc((char *)b.bt[i] - 1, "%f|%s", buf, sizeof buf);
+    std::string f = buf;
+    size_t bar = f.find('|');
+    if (bar == std::string::npos) continue;
+    std::string fn = f.substr(0, bar), file = f.substr(bar + 1);
+    if (file.find("/src/lib/") == std::string::npos) continue;
+    if (fn == "ares_malloc" || fn == "ares_malloc_zero" || fn == "ares_realloc" || fn == "ares_realloc_zero" || fn == "ares_strdup") continue;
+    out += (shown ? " < " : "") + fn; shown++;
+  }
+  return out;
+}
 static void *l_malloc(size_t n) {
   if (g_alloc.active) {
     g_alloc.calls++;
     if (g_alloc.fail_at > 0 && g_alloc.calls == g_alloc.fail_at) { g_alloc.failed++; return nullptr; }
   }
   void *p = malloc(n ? n : 1);
-  if (p && g_alloc.active) g_alloc.live[p] = n;
+  if (p && g_alloc.active) blk_fill(g_alloc.live[p], n);
   return p;
 }
 static void l_free(void *p) {
@@ -59,7 +84,7 @@ static void *l_realloc(void *p, size_t n) {
     if (g_alloc.fail_at > 0 && g_alloc.calls == g_alloc.fail_at) { g_alloc.failed++; return nullptr; }
   }
   void *q = realloc(p, n ? n : 1);
-  if (q && g_alloc.active) { if (p) g_alloc.live.erase(p); g_alloc.live[q] = n; }
+  if (q && g_alloc.active) { if (p) g_alloc.live.erase(p); blk_fill(g_alloc.live[q], n); }
   return q;
 }
 void alloc_install() { ares_library_init_mem(ARES_LIB_INIT_ALL, l_malloc, l_free, l_realloc); }
@@ -924,6 +949,7 @@ void Run::execute() {
   W.on_tx = [this](Tx &t) { for (auto &f : tx_obs) f(*this, t); };
   for (auto &f : world_ready) f(*this);
   g_alloc.reset(); g_alloc.active = true;
+  g_alloc.fail_at = (long)cfg.knob("fail_at", -1);
   ares_library_init_mem(ARES_LIB_INIT_ALL, l_malloc, l_free, l_realloc);
   if (make_channel(0)) {
     check_invariants("init");
@@ -940,14 +966,23 @@ void Run::execute() {
       for (auto &r : reqs) if (r.accepted && r.cb_count == 0) { who = std::to_string(r.token) + " (" + req_kind_name[r.kind] + " " + r.name + ")"; break; }
       violate("C06", "no_termination", "request " + who + " still outstanding after faults stopped and " + std::to_string(budget) + " loop turns");
     }
+    if (before_destroy) before_destroy(*this);
     destroy_all();
   }
   final_oracles();
   if (at_end) at_end(*this);
   ares_library_cleanup();
   g_alloc.active = false;
-  if (!g_alloc.live.empty()) note("leaked_allocations", (int64_t)g_alloc.live.size());
-  if (g_alloc.bad_free) note("bad_frees", g_alloc.bad_free);
+  note("alloc_calls", g_alloc.calls);
+  if (!g_alloc.live.empty()) {
+    note("leaked_allocations", (int64_t)g_alloc.live.size());
+    if (cfg.profile == "C14") {
+      size_t bytes = 0; long first = -1; size_t fsz = 0; std::string where;
+      for (auto &p : g_alloc.live) { bytes += p.second.size; if (first < 0 || p.second.index < first) { first = p.second.index; fsz = p.second.size; where = blk_where(p.second); } }
+      violate("C14", "leak", std::to_string(g_alloc.live.size()) + " allocation(s), " + std::to_string(bytes) + " bytes, still live after ares_destroy and ares_library_cleanup" + (cfg.knob("fail_at", -1) > 0 ? " (allocation #" + std::to_string(cfg.knob("fail_at")) + " was failed)" : " (no failure injected)") + "; earliest is allocation #" + std::to_string(first) + " of " + std::to_string(fsz) + " bytes" + (where.empty() ? "" : ", allocated in " + where));
+    }
+  }
+  if (g_alloc.bad_free) { note("bad_frees", g_alloc.bad_free); if (cfg.profile == "C14") violate("C14", "bad_free", std::to_string(g_alloc.bad_free) + " free/realloc call(s) on a pointer the allocator never handed out or already released"); }
   g_run = nullptr;
 }
 
